@@ -173,6 +173,10 @@ int cif_loop_set_category(cif_loop_tp *loop, const UChar *category) {
     UChar *category_temp;
 
     if (category == NULL) {
+        /* the reserved category of the scalar loop may not be taken away, not even by setting no category */
+        if ((loop->category != NULL) && (*(loop->category) == 0)) {
+            return CIF_RESERVED_LOOP;
+        }
         category_temp = NULL;
     } else if (*category == 0) {
         return CIF_RESERVED_LOOP;
